@@ -71,3 +71,8 @@ func (h *NtfnsHandler) VerifMempoolSize() int {
 	defer h.memMtx.Unlock()
 	return len(h.mempool)
 }
+
+// VerifUnminedTx reads one transaction back from the pending store.
+func (w *WalletManager) VerifUnminedTx(hash *wire.Hash) (*wire.MsgTx, error) {
+	return w.existsUnminedTx(hash)
+}
